@@ -107,6 +107,7 @@ type RouteC struct {
 	TG    bool     `json:"tg,omitempty"`
 	TMG   bool     `json:"tmg,omitempty"`
 	NoRes bool     `json:"nores,omitempty"`
+	FU    []string `json:"fu,omitempty"` // fromUsers: no effect on validation (not sent to the model), exercised by route matching
 }
 
 type RouterC struct {
@@ -136,11 +137,13 @@ func clone(c ConfigC) ConfigC {
 
 // ---------- driver script ----------
 
+// enc makes a string a single protocol token: "" is "~", a blank is "%20" (the generator uses no other
+// white space, no comma, no '=' and no '%' in names).
 func enc(s string) string {
 	if s == "" {
 		return "~"
 	}
-	return s
+	return strings.ReplaceAll(s, " ", "%20")
 }
 
 func encL(l []string) string {
@@ -478,6 +481,9 @@ func (c ConfigC) JSON(dir string) []byte {
 		}
 		if len(rt.FPS) > 0 {
 			m["fromPrefixSets"] = rt.FPS
+		}
+		if len(rt.FU) > 0 {
+			m["fromUsers"] = rt.FU
 		}
 		if rt.TD {
 			m["toDomains"] = []string{"example.com"}
